@@ -20,7 +20,7 @@ SRV = 'impl<F: FileSystem + Sync> Server<F>'
 CTX = "impl<F: FileSystem, S: BitmapSlice> SrvContext<'_, F, S>"
 CTXA = "impl<'a, F: FileSystem, S: BitmapSlice> SrvContext<'a, F, S>"
 
-WIRE = ['Attr', 'Kstatfs', 'EntryOut', 'ForgetIn', 'ForgetOne', 'BatchForgetIn', 'GetattrIn', 'AttrOut', 'MknodIn', 'MkdirIn',
+WIRE = ['SetupmappingIn', 'RemovemappingIn', 'Attr', 'Kstatfs', 'EntryOut', 'ForgetIn', 'ForgetOne', 'BatchForgetIn', 'GetattrIn', 'AttrOut', 'MknodIn', 'MkdirIn',
         'RenameIn', 'Rename2In', 'LinkIn', 'SetattrIn', 'OpenIn', 'CreateIn', 'OpenOut', 'ReleaseIn', 'FlushIn', 'ReadIn', 'WriteIn',
         'WriteOut', 'FsyncIn', 'SetxattrIn', 'GetxattrIn', 'GetxattrOut', 'LkIn', 'LkOut', 'AccessIn', 'InitIn', 'InitIn2', 'InitOut',
         'BmapIn', 'BmapOut', 'IoctlIn', 'IoctlOut', 'PollIn', 'PollOut', 'FallocateIn', 'InHeader', 'OutHeader', 'Dirent',
@@ -180,6 +180,119 @@ pub open spec fn reply_write<F: FileSystem>(fs: &F, hd: InHeader, rem: Seq<u8>, 
         b == (match fs.res_count() { Ok(v) => ok_reply(hd.unique, (WriteOut { size: v as u32, padding: 0 }).sbytes(), Seq::<u8>::empty()), Err(e) => err_reply(hd.unique, e) })
     } else { is_err_reply(hd.unique, b) }
 }
+// ---- INIT (C12), from the property and the kernel's process_init_reply()
+pub open spec fn init_capable(a: InitIn, rem: Seq<u8>) -> u64 {     // what the client offers: 64-bit word only with FUSE_INIT_EXT AND its payload
+    let f = a.flags as u64;
+    (if f & 0x4000_0000u64 == 0 { f }
+     else if rem.len() >= 16 + 48 { f | ((<InitIn2 as ByteValued>::sdecode(rem.subrange(16, 64)).flags2 as u64) << 32) }
+     else { f & !0x4000_0000u64 }) & FsOptions::all_bits()
+}
+// the kernel's view of the reply: `flags = arg->flags; if (flags & FUSE_INIT_EXT) flags |= (u64) arg->flags2 << 32;`
+pub open spec fn kview(o: InitOut) -> u64 { (o.flags as u64) | (if o.flags & 0x4000_0000u32 != 0 { (o.flags2 as u64) << 32 } else { 0u64 }) }
+pub open spec fn init_out_ok(o: InitOut, a: InitIn, capable: u64, want: u64) -> bool {
+    &&& o.major == 7
+    &&& kview(o) & !0x4000_0000u64 == (capable & want) & !0x4000_0000u64        // "enables precisely their intersection ... extended bits only together with the marker"
+    &&& o.max_readahead <= a.max_readahead
+    &&& 4096 <= o.max_write <= 0x10_0000                                          // "write-size limits that fit the transport buffers"
+    &&& ((capable & want) & 0x40_0000u64 != 0 ==> o.max_pages as int * 4096 >= o.max_write as int)   // MAX_PAGES
+}
+pub open spec fn init_out_len(minor: u32) -> int { if minor < 5 { 8 } else if minor < 23 { 24 } else { 64 } }   // "laid out for the client's minor version"
+pub open spec fn init_reply_is(o: InitOut, a: InitIn, capable: u64, want: u64, u: u64, b: Seq<u8>) -> bool {
+    init_out_ok(o, a, capable, want) && b == ok_reply(u, o.sbytes().subrange(0, init_out_len(a.minor)), Seq::<u8>::empty())
+}
+pub open spec fn init_major_reply_is(o: InitOut, u: u64, b: Seq<u8>) -> bool { o.major == 7 && o.flags == 0 && o.flags2 == 0 && b == ok_reply(u, o.sbytes(), Seq::<u8>::empty()) }
+pub open spec fn wf_init(hd: InHeader, rem: Seq<u8>) -> bool { rem.len() >= 16 }
+pub open spec fn want_init<F: FileSystem>(fs: &F, hd: InHeader, cx: Context, rem: Seq<u8>) -> bool {
+    let a = <InitIn as ByteValued>::sdecode(rem.subrange(0, 16));
+    a.major == 7 ==> fs.allowed_init(FsOptions { bits: init_capable(a, rem) })          // major mismatch: the filesystem is NOT initialised
+}
+pub open spec fn reply_init<F: FileSystem>(fs: &F, hd: InHeader, rem: Seq<u8>, b: Seq<u8>) -> bool {
+    if wf_init(hd, rem) {
+        let a = <InitIn as ByteValued>::sdecode(rem.subrange(0, 16));
+        if a.major < 7 { b == errno_reply(hd.unique, 71) }                                 // EPROTO
+        else if a.major > 7 { exists|o: InitOut| #[trigger] init_major_reply_is(o, hd.unique, b) }
+        else { match fs.res_init() {
+            Ok(w) => exists|o: InitOut| #[trigger] init_reply_is(o, a, init_capable(a, rem), w.bits, hd.unique, b),
+            Err(e) => b == err_reply(hd.unique, e) } }
+    } else { is_err_reply(hd.unique, b) }
+}
+// setxattr: fuse_setxattr_in {size, flags} + name NUL value; `size` must equal the length of the value
+pub open spec fn xattr_body(hd: InHeader, rem: Seq<u8>) -> Seq<u8> { rem.subrange(8, 8 + (hd.len as int - 40 - 8)) }
+pub open spec fn wf_setxattr(hd: InHeader, rem: Seq<u8>) -> bool {
+    let nlen = hd.len as int - 40 - 8; let a = <SetxattrIn as ByteValued>::sdecode(rem.subrange(0, 8));
+    rem.len() >= 8 && nlen >= 0 && rem.len() >= 8 + nlen && has_nul(xattr_body(hd, rem)) && a.size as int == nlen - (first_nul(xattr_body(hd, rem)) + 1)
+}
+pub open spec fn want_setxattr<F: FileSystem>(fs: &F, hd: InHeader, cx: Context, rem: Seq<u8>) -> bool {
+    let a = <SetxattrIn as ByteValued>::sdecode(rem.subrange(0, 8)); let body = xattr_body(hd, rem);
+    fs.allowed_setxattr(cx, ino_of::<F>(hd.nodeid), cstr_of(body), body.subrange(first_nul(body) + 1, body.len() as int), a.flags)
+}
+pub open spec fn reply_setxattr<F: FileSystem>(fs: &F, hd: InHeader, rem: Seq<u8>, b: Seq<u8>) -> bool {
+    if wf_setxattr(hd, rem) { b == (match fs.res_unit() { Ok(v) => ok_reply(hd.unique, Seq::<u8>::empty(), Seq::<u8>::empty()), Err(e) => err_reply(hd.unique, e) }) }
+    else { is_err_reply(hd.unique, b) }
+}
+// ioctl: fuse_ioctl_in (32 bytes) + in_size bytes of input; more input announced than present => ENOTTY
+pub open spec fn wf_ioctl(hd: InHeader, rem: Seq<u8>) -> bool { rem.len() >= 32 }
+pub open spec fn want_ioctl<F: FileSystem>(fs: &F, hd: InHeader, cx: Context, rem: Seq<u8>) -> bool {
+    let a = <IoctlIn as ByteValued>::sdecode(rem.subrange(0, 32));
+    a.in_size as int <= rem.len() - 32 ==>
+    fs.allowed_ioctl(cx, ino_of::<F>(hd.nodeid), fh_of::<F>(a.fh), a.flags, a.cmd,
+                     IoctlArg { result: 0, data: (if a.in_size > 0 { Some(rem.subrange(32, 32 + a.in_size as int)) } else { None::<Seq<u8>> }) }, a.out_size)
+}
+pub open spec fn reply_ioctl<F: FileSystem>(fs: &F, hd: InHeader, rem: Seq<u8>, b: Seq<u8>) -> bool {
+    if wf_ioctl(hd, rem) {
+        let a = <IoctlIn as ByteValued>::sdecode(rem.subrange(0, 32));
+        if a.in_size as int > rem.len() - 32 { b == errno_reply(hd.unique, 25) }
+        else { b == (match fs.res_ioctl() {
+            Ok(v) => ok_reply(hd.unique, (IoctlOut { result: v.result, flags: 0, in_iovs: 0, out_iovs: 0 }).sbytes(), (match v.data { Some(d) => d, None => Seq::<u8>::empty() })),
+            Err(e) => err_reply(hd.unique, e) }) }
+    } else { is_err_reply(hd.unique, b) }
+}
+// batch_forget: fuse_batch_forget_in {count, dummy} + count x fuse_forget_one {nodeid, nlookup}; never a reply
+pub open spec fn forget_one_at(rem: Seq<u8>, i: int) -> ForgetOne { <ForgetOne as ByteValued>::sdecode(rem.subrange(8 + 16 * i, 8 + 16 * i + 16)) }
+pub open spec fn wf_batch_forget(hd: InHeader, rem: Seq<u8>) -> bool {
+    let a = <BatchForgetIn as ByteValued>::sdecode(rem.subrange(0, 8));
+    rem.len() >= 8 && (a.count as int) * 16 <= 0x10_1000 - 8 - 40 && rem.len() >= 8 + 16 * (a.count as int)
+}
+pub open spec fn want_batch_forget<F: FileSystem>(fs: &F, hd: InHeader, cx: Context, rem: Seq<u8>) -> bool {
+    let a = <BatchForgetIn as ByteValued>::sdecode(rem.subrange(0, 8));
+    fs.allowed_batch_forget(cx, Seq::new(a.count as nat, |i: int| (ino_of::<F>(forget_one_at(rem, i).nodeid), forget_one_at(rem, i).nlookup)))
+}
+pub open spec fn reply_batch_forget<F: FileSystem>(fs: &F, hd: InHeader, rem: Seq<u8>, b: Seq<u8>) -> bool { false }
+// readdir / readdirplus (Server::do_readdir is NOT verified: its closure captures &mut cursor as &mut dyn FnMut).  What any
+// directory reply must satisfy: "whole 8-byte-aligned entries within the size the client asked for"
+pub open spec fn dir_reply_ok(u: u64, size: u32, b: Seq<u8>) -> bool { frame_ok(u, b) && b.len() - 16 <= size as int && (b.len() - 16) % 8 == 0 }
+pub open spec fn reply_readdir<F: FileSystem>(fs: &F, hd: InHeader, rem: Seq<u8>, b: Seq<u8>) -> bool {
+    if rem.len() >= 40 { let a = <ReadIn as ByteValued>::sdecode(rem.subrange(0, 40)); is_err_reply(hd.unique, b) || dir_reply_ok(hd.unique, a.size, b) }
+    else { is_err_reply(hd.unique, b) }
+}
+// DAX window mapping (virtio-fs)
+pub open spec fn wf_setupmapping(hd: InHeader, rem: Seq<u8>) -> bool { rem.len() >= 40 }
+pub open spec fn want_setupmapping<F: FileSystem>(fs: &F, hd: InHeader, cx: Context, rem: Seq<u8>) -> bool {
+    let a = <SetupmappingIn as ByteValued>::sdecode(rem.subrange(0, 40));
+    fs.allowed_setupmapping(cx, ino_of::<F>(hd.nodeid), fh_of::<F>(a.fh), a.foffset, a.len, a.flags, a.moffset)
+}
+pub open spec fn reply_setupmapping<F: FileSystem>(fs: &F, hd: InHeader, rem: Seq<u8>, has_req: bool, b: Seq<u8>) -> bool {
+    if !has_req { b == errno_reply(hd.unique, 22) }
+    else if wf_setupmapping(hd, rem) { b == (match fs.res_unit() { Ok(v) => ok_reply(hd.unique, Seq::<u8>::empty(), Seq::<u8>::empty()), Err(e) => err_reply(hd.unique, e) }) }
+    else { is_err_reply(hd.unique, b) }
+}
+pub open spec fn rm_one_at(rem: Seq<u8>, i: int) -> RemovemappingOne { <RemovemappingOne as ByteValued>::sdecode(rem.subrange(4 + 16 * i, 4 + 16 * i + 16)) }
+pub open spec fn wf_removemapping(hd: InHeader, rem: Seq<u8>) -> bool {
+    let a = <RemovemappingIn as ByteValued>::sdecode(rem.subrange(0, 4));
+    rem.len() >= 4 && (a.count as int) * 16 <= 0x10_0000 && rem.len() >= 4 + 16 * (a.count as int)
+}
+pub open spec fn want_removemapping<F: FileSystem>(fs: &F, hd: InHeader, cx: Context, rem: Seq<u8>) -> bool {
+    let a = <RemovemappingIn as ByteValued>::sdecode(rem.subrange(0, 4));
+    fs.allowed_removemapping(cx, ino_of::<F>(hd.nodeid), Seq::new(a.count as nat, |i: int| rm_one_at(rem, i)))
+}
+pub open spec fn reply_removemapping<F: FileSystem>(fs: &F, hd: InHeader, rem: Seq<u8>, has_req: bool, b: Seq<u8>) -> bool {
+    if !has_req { b == errno_reply(hd.unique, 22) }
+    else if rem.len() < 4 { is_err_reply(hd.unique, b) }
+    else { let a = <RemovemappingIn as ByteValued>::sdecode(rem.subrange(0, 4));
+        if (a.count as int) * 16 > 0x10_0000 { b == errno_reply(hd.unique, 12) }
+        else if wf_removemapping(hd, rem) { b == (match fs.res_unit() { Ok(v) => ok_reply(hd.unique, Seq::<u8>::empty(), Seq::<u8>::empty()), Err(e) => err_reply(hd.unique, e) }) }
+        else { is_err_reply(hd.unique, b) } }
+}
 // read: optional lock owner follows READ_LOCKOWNER; "read replies carry exactly the bytes produced"
 pub open spec fn wf_read(hd: InHeader, rem: Seq<u8>) -> bool { rem.len() >= 40 }
 pub open spec fn want_read<F: FileSystem>(fs: &F, hd: InHeader, cx: Context, rem: Seq<u8>) -> bool {
@@ -193,6 +306,62 @@ pub open spec fn reply_read<F: FileSystem>(fs: &F, hd: InHeader, rem: Seq<u8>, b
     } else { is_err_reply(hd.unique, b) }
 }
 """
+
+
+OPCODES = [(1, 'lookup'), (2, 'forget'), (3, 'getattr'), (4, 'setattr'), (5, 'readlink'), (6, 'symlink'), (8, 'mknod'), (9, 'mkdir'), (10, 'unlink'),
+           (11, 'rmdir'), (12, 'rename'), (13, 'link'), (14, 'open'), (15, 'read'), (16, 'write'), (17, 'statfs'), (18, 'release'), (20, 'fsync'),
+           (21, 'setxattr'), (22, 'getxattr'), (23, 'listxattr'), (24, 'removexattr'), (25, 'flush'), (26, 'init'), (27, 'opendir'), (28, 'readdir'),
+           (29, 'releasedir'), (30, 'fsyncdir'), (31, 'getlk'), (32, 'setlk'), (33, 'setlkw'), (34, 'access'), (35, 'create'), (36, 'interrupt'),
+           (37, 'bmap'), (38, 'destroy'), (39, 'ioctl'), (40, 'poll'), (41, 'notify_reply'), (42, 'batch_forget'), (43, 'fallocate'),
+           (44, 'readdirplus'), (45, 'rename2'), (46, 'lseek'), (48, 'setupmapping'), (49, 'removemapping')]
+NO_WANT = {'interrupt', 'destroy', 'notify_reply', 'readdir', 'readdirplus'}
+
+
+def dispatch_specs():
+    """the top-level specification of handle_message: opcode numbers are the kernel's (enum fuse_opcode)"""
+    rl, wl = [], []
+    for (n, op) in OPCODES:
+        if op == 'lookup':
+            r = 'reply_lookup(fs, hd, rem, minor, b)'
+        elif op in ('setupmapping', 'removemapping'):
+            r = 'reply_%s(fs, hd, rem, has_req, b)' % op
+        elif op == 'interrupt':
+            r = 'false'
+        elif op == 'readdirplus':
+            r = 'reply_readdir(fs, hd, rem, b)'
+        else:
+            r = 'reply_%s(fs, hd, rem, b)' % op
+        rl.append('        else if hd.opcode == %d { %s }' % (n, r))
+        if op == 'destroy':
+            wl.append('        &&& (hd.opcode == 38 ==> fs.allowed_destroy())')
+        elif op == 'notify_reply':
+            wl.append('        &&& (hd.opcode == 41 ==> fs.allowed_notify_reply())')
+        elif op not in NO_WANT:
+            g = 'has_req && ' if op in ('setupmapping', 'removemapping') else ''
+            wl.append('        &&& (hd.opcode == %d && %swf_%s(hd, rem) ==> want_%s(fs, hd, cx, rem))' % (n, g, op, op))
+    return '''
+// =====================================================================================================================
+// Top-level specification of Server::handle_message (C01, C02, C03): `req` is the whole request as the client sent it
+pub open spec fn ctx_of(hd: InHeader) -> Context { Context { uid: hd.uid, gid: hd.gid, pid: hd.pid as i32 } }
+pub open spec fn reply_msg<F: FileSystem>(fs: &F, minor: u32, has_req: bool, req: Seq<u8>, b: Seq<u8>) -> bool {
+    if req.len() < 40 { false } else {
+        let hd = <InHeader as ByteValued>::sdecode(req.subrange(0, 40)); let rem = req.skip(40);
+        if fs.res_id_remap_with_nodeid() is Err { is_err_reply(hd.unique, b) }
+        else if hd.len > 0x10_1000 { if hd.opcode == 2 || hd.opcode == 42 { false } else { b == errno_reply(hd.unique, 12) } }     // over-long: ENOMEM, never for FORGET / BATCH_FORGET
+%s
+        else { b == errno_reply(hd.unique, 38) }                                                                                  // unknown opcode: ENOSYS
+    }
+}
+pub open spec fn want_msg<F: FileSystem>(fs: &F, has_req: bool, req: Seq<u8>) -> bool {
+    req.len() >= 40 ==> ({
+        let hd = <InHeader as ByteValued>::sdecode(req.subrange(0, 40)); let rem = req.skip(40); let cx = fs.ctx_id_remap_with_nodeid();
+        &&& fs.allowed_id_remap_with_nodeid(ctx_of(hd), ino_of::<F>(hd.nodeid))          // "the per-request translation of caller ids"
+        &&& (fs.res_id_remap_with_nodeid() is Ok && hd.len <= 0x10_1000 ==> ({
+%s
+        }))
+    })
+}
+''' % ('\n'.join(rl), '\n'.join(wl))
 
 SIZES = {}
 INFO = {}
@@ -244,6 +413,13 @@ def handler_contract(op, extra_req=(), noreply=False, reply_extra='', want=True)
 
 
 NAME_ERR_SPLICE = None
+
+
+VERIFIED_LATER = set(os.environ.get('SRV_EXT', 'init,setxattr,ioctl,batch_forget,setupmapping,removemapping').split(','))
+
+
+def EXT(name):
+    return name in VERIFIED_LATER
 
 
 def unit(root='/repo'):
@@ -307,6 +483,7 @@ impl<'a, S: BitmapSlice> ZeroCopyReader for ZcReader<'a, S> { }
     ]
     items.append(Raw('\n'.join(spec_fns(op, d) for op, d in OPS.items())))
     items.append(Raw(CUSTOM_SPECS))
+    items.append(Raw(dispatch_specs()))
     # ---- conversions and small helpers (real text)
     items += [
         Fn(LIB, None, 'encode_io_error_kind', ensures=['r == spec_kind_errno(kind) // [C03.errno.kind]', '0 < r < 4096'], props=['C03'],
@@ -440,6 +617,35 @@ impl<'a, S: BitmapSlice> ZeroCopyReader for ZcReader<'a, S> { }
                          'proof { assert(data_writer.0.buf@ =~= self.fs.res_read_data()); assert(count == self.fs.res_read_data().len()); assert(count <= MAX_REPLY_CAP); }'),
                     ('ctx.w\n                    .commit(Some(&data_writer.0))', 'before',
                      'proof { lemma_read_reply_frame(ctx.in_header.unique, self.fs.res_read_data()); assert(commit_bytes(&ctx.w, Some(&data_writer.0)) =~= hdr_bytes(16 + self.fs.res_read_data().len(), 0, ctx.in_header.unique) + self.fs.res_read_data()); }')],
+           props=['C01'], canary=True),
+    ]
+    SIGREQ = [('&mut dyn FsCacheReqHandler', '&mut FsCacheReq')]
+    vu_contract = lambda op: [c.replace('wf_%s(ctx.in_header, ctx.r.rem@) ==>' % op, 'vu_req is Some && wf_%s(ctx.in_header, ctx.r.rem@) ==>' % op)
+                              for c in handler_contract(op, reply_extra='vu_req is Some, ')]
+    custom += [
+        Fn(SYNC, SRV, 'init', requires=handler_contract('init') + ['forall|p: &InitParams| on_init_params.requires((p,))'], external_body=EXT('init'), splices=[E0], props=['C12'], canary=not EXT('init')),
+        Fn(SYNC, SRV, 'setxattr', requires=handler_contract('setxattr'), external_body=EXT('setxattr'), splices=[E0], props=['C01']),
+        Fn(SYNC, SRV, 'ioctl', requires=handler_contract('ioctl'), external_body=EXT('ioctl'), splices=[E0], props=['C01']),
+        Fn(SYNC, SRV, 'batch_forget', requires=handler_contract('batch_forget', noreply=True), external_body=EXT('batch_forget'), splices=[E0], props=['C01']),
+        Fn(SYNC, SRV, 'setupmapping', requires=vu_contract('setupmapping'), sig_subst=SIGREQ, external_body=EXT('setupmapping'), splices=[E0], props=['C01']),
+        Fn(SYNC, SRV, 'removemapping', requires=vu_contract('removemapping'), sig_subst=SIGREQ, external_body=EXT('removemapping'), splices=[E0], props=['C01']),
+        Fn(SYNC, SRV, 'do_readdir', requires=handler_contract('readdir', want=False), external_body=True, props=['C01']),
+        Fn(SYNC, SRV, 'readdir', requires=handler_contract('readdir', want=False), props=['C01']),
+        Fn(SYNC, SRV, 'readdirplus', requires=handler_contract('readdir', want=False), props=['C01']),
+        Fn(SMOD, SRV, 'remap_ctx_ids', sig_subst=[('SrvContext<F, S>', "SrvContext<'_, F, S>")],
+           requires=['convs_ok::<F>()', 'self.fs.touch_ok()',
+                     'self.fs.allowed_id_remap_with_nodeid(old(ctx).context, ino_of::<F>(old(ctx).in_header.nodeid)) // [C02.remap.args]'],
+           ensures=['final(ctx).in_header == old(ctx).in_header', 'final(ctx).r == old(ctx).r', 'final(ctx).w == old(ctx).w',
+                    'r is Ok <==> self.fs.res_id_remap_with_nodeid() is Ok',
+                    'r is Ok ==> final(ctx).context == self.fs.ctx_id_remap_with_nodeid() // [C02.remap.ctx]'],
+           splices=[('|_v|', 'closure', '|_v: io::Error| -> (q: Error)')], props=['C02']),
+        Fn(SYNC, SRV, 'handle_message', ret_name='res', sig_subst=SIGREQ,
+           requires=['w.fresh()', 'convs_ok::<F>()', 'self.fs.touch_ok()', 'forall|u: u32, g: u32| self.fs.ids_ok(u, g)',
+                     '''r.rem@.len() >= 40 ==> ({ let hd = <InHeader as ByteValued>::sdecode(r.rem@.subrange(0, 40));
+                        uniq(w.id@) == hd.unique && (may_reply(w.id@) <==> (hd.opcode != 2 && hd.opcode != 42)) }) // [C01.forget]''',
+                     'want_msg(&self.fs, vu_req is Some, r.rem@) // [C02.dispatch]',
+                     'forall|b: Seq<u8>| #[trigger] emit_ok(w.id@, b) <==> reply_msg(&self.fs, self.vers.cur().minor, vu_req is Some, r.rem@, b) // [C03.dispatch]'],
+           splices=[('^', 'after', 'broadcast use axiom_sbytes_len, lemma_err_reply_frame; let ghost req0 = r.rem@; proof { reveal(errno_reply); assert((1u32 << 20) == 0x10_0000u32) by (bit_vector); assert(MAX_BUFFER_SIZE == 0x10_0000u32); }')],
            props=['C01'], canary=True),
     ]
     if only:
